@@ -59,6 +59,14 @@ MUTANTS = [
     ("C01", "cuqi/distribution/_joint_distribution.py", "            logd_kwargs = {key:value for (key,value) in kwargs.items() if key in density.get_parameter_names()}\n            logd += density.logd(**logd_kwargs)", "            logd_kwargs = {key:value for (key,value) in kwargs.items() if key in density.get_parameter_names()}\n            logd += density.logd(**logd_kwargs) if len(logd_kwargs) > 0 else 0"),
     ("C01", "cuqi/density/_density.py", "            if set(par_names) != set(kwargs.keys()):", "            if not set(par_names).issubset(set(kwargs.keys())):"),
     ("C01", "cuqi/distribution/_distribution.py", "                    func = partial(var_val, **var_args)\n                    setattr(new_dist, var_key, func)", "                    func = partial(var_val, **var_args)\n                    setattr(self, var_key, func)"),
+    # C02
+    ("C02", "cuqi/experimental/mcmc/_langevin_algorithm.py", "        log_alpha = min(0, log_target_ratio + log_prop_ratio)", "        log_alpha = min(0, log_target_ratio)"),
+    ("C02", "cuqi/sampler/_langevin_algorithm.py", "        mu = theta_k + ((self.scale)/2)*g_logpi_k", "        mu = theta_k + (self.scale)*g_logpi_k"),
+    ("C02", "cuqi/experimental/mcmc/_pcn.py", "mean + np.sqrt(1-self.scale**2)*(self.current_point-mean)", "mean + (1-self.scale**2)*(self.current_point-mean)"),
+    ("C02", "cuqi/experimental/mcmc/_mh.py", "            self.current_point = x_star\n            self.current_target_logd = target_eval_star\n            acc = 1", "            self.current_point = x_star\n            acc = 1"),
+    ("C02", "cuqi/sampler/_mh.py", "        u_theta = np.log(np.random.rand())\n        if (u_theta <= alpha)", "        u_theta = np.random.rand()\n        if (u_theta <= alpha)"),
+    ("C02", "cuqi/experimental/mcmc/_cwmh.py", "                target_eval_t = target_eval_star\n                acc[j] = 1", "                acc[j] = 1"),
+    ("C02", "cuqi/experimental/mcmc/_mh.py", "        if (u_theta <= alpha) and \\\n           (not np.isnan(target_eval_star)) and \\\n           (not np.isinf(target_eval_star)):", "        if (u_theta <= alpha):"),
     # C03
     ("C03", "cuqi/distribution/_beta.py", "return (self.alpha - 1)/x + (self.beta-1)/(x-1)", "return (self.alpha - 1)/x - (self.beta-1)/(x-1)"),
     ("C03", "cuqi/distribution/_gaussian.py", "return -( self.sqrtprec.T @ (self.sqrtprec @ (val - self.mean).T) )", "return -( self.sqrtprec.T @ (self.sqrtprec @ (val).T) )"),
